@@ -220,6 +220,18 @@ CLAIMED['C12'] = (
     'polygon test is an uninterpreted 0/1 function; basis identities are proved for abstracted field components (generalisation); '
     'psin_to_r is outside; the bundled equilibria are covered only as instances of "any psi grid" up to the stated grid sizes.',
     'DESIGN.md §4 C12', TECH)
+CLAIMED['C08'] = (
+    'parse_adf11 / parse_adf12 / parse_adf15 / parse_adf21 / parse_adf22bmp / parse_adf22bme, readvalues, parse_adas2x_rate and every '
+    'install_adf* function are executed from /repo source on files produced by independent writers of the published layouts. The text '
+    'structure (grid sizes incl. counts that are not multiples of the values per line, 1-5 charge blocks, 1-4 ADF15 blocks of types EXCIT / '
+    'RECOM / CHEXC in index or reversed order, hydrogen / hydrogen-like / full-configuration headers, resolved / unresolved ADF11 header) is '
+    'concrete per job (186 files quick, 828 thorough); every number in a file is a provenance-tagged numeral whose float() is a fresh symbolic '
+    'real, so z3 decides for all numeric contents that each returned table cell equals the documented expression of the right file entry '
+    '(10**x, *1e6, *1e-6, /10; (density, temperature) order; block-to-transition assignment; Z1-1 for scd/plt) and that the dictionaries '
+    'handed to repository.update_* have the documented keys. Element mismatch, absent block, invalid header are checked to raise.',
+    'text structure is enumerated, not symbolic (regular-expression scraping of symbolic text is out of reach of the solvers available); the '
+    'repository write/read-back leg is C06\'s claim (update_* arguments are compared here); ADF12 header columns follow the parser.',
+    'DESIGN.md §4 C08', 'concrete enumeration of file layouts x symbolic numeric content: real parsers executed on z3 proxies, SMT (z3) decides each table-cell equality')
 NOT_YET = {}
 props = [json.loads(l) for l in open(os.path.join(HERE, 'properties.jsonl'))]
 checks, na = [], []
